@@ -251,6 +251,54 @@ MUTANTS = [
       "                return base.TaskLogicalState(\n"
       "                    states.RUNNING,\n"
       "                    triggered_by=_triggered_by(states.ERROR)"),
+    m('C01-queue-started-for-empty-only', 'C01', ['R13'],
+      E + 'post_tx_queue.py',
+      "            if not queue:\n                return res\n",
+      "            if queue:\n                return res\n"),
+    m('C01-queue-run-on-failure-too', 'C01', ['R13'], E + 'post_tx_queue.py',
+      "            t = threading.Thread(target=_within_new_thread)\n"
+      "            t.start()\n        finally:\n            _clear()\n",
+      "        finally:\n"
+      "            threading.Thread(target=_within_new_thread).start()\n"
+      "            _clear()\n"),
+    m('C13-commit-even-when-body-failed', 'C13', ['R9'], D + 'api.py',
+      "        try:\n            yield\n            if read_only:\n"
+      "                rollback_tx()\n            else:\n"
+      "                commit_tx()\n        finally:\n            end_tx()",
+      "        try:\n            yield\n        finally:\n"
+      "            if read_only:\n                rollback_tx()\n"
+      "            else:\n                commit_tx()\n            end_tx()"),
+    m('C01-in-tx-operation-outside-transaction', 'C01', ['R13'],
+      E + 'post_tx_queue.py',
+      "        if in_tx:\n            with db_api.transaction():",
+      "        if not in_tx:\n            with db_api.transaction():"),
+    m('C04-lock-row-not-flushed', 'C04', ['R11'], D + 'api.py',
+      "    session.execute(insert.values(id=lock_id, name=name))\n\n"
+      "    session.flush()\n\n    return lock_id",
+      "    session.execute(insert.values(id=lock_id, name=name))\n\n"
+      "    return lock_id"),
+    m('C16-auth-skipped-for-v2-prefix', 'C16', ['R8'], 'mistral/context.py',
+      "        if state.request.path in ALLOWED_WITHOUT_AUTH:",
+      "        if state.request.path.startswith(tuple(ALLOWED_WITHOUT_AUTH)):"),
+    m('C15-context-not-removed', 'C15', ['R8'], 'mistral/context.py',
+      "    def after(self, state):\n        set_ctx(None)",
+      "    def after(self, state):\n        pass"),
+    m('C13-job-args-not-passed', 'C13', ['R10'],
+      'mistral/scheduler/default_scheduler.py',
+      "            func(**args)\n", "            func()\n"),
+    m('C01-start-commands-for-resume', 'C01', ['R14'],
+      W + 'direct_workflow.py',
+      "        if not task_ex and not self.wf_ex.task_executions:",
+      "        if not task_ex:"),
+    m('C10-resume-ignores-failed-unprocessed', 'C10', ['R5'],
+      W + 'direct_workflow.py',
+      "                if states.is_completed(t_ex.state) and not "
+      "t_ex.processed",
+      "                if t_ex.state == states.SUCCESS and not "
+      "t_ex.processed"),
+    m('C09-resolution-global-first', 'C09', ['R7'], E + 'utils.py',
+      "    if parent_wf_name != parent_wf_spec_name:",
+      "    if parent_wf_name == parent_wf_spec_name:"),
     # ---------------------------------------------------------------- C05
     m('C05-evaluate-in-place', 'C05', ['R1'], 'mistral/expressions/__init__.py',
       "    data = copy.deepcopy(data)\n\n    if not context:",
@@ -1094,6 +1142,15 @@ REFACTORS = [
       "        runnings_tuple = count(states.RUNNING)\n"
       "        total_count = len(induced_states)\n"
       "        n_inbound = total_count"),
+    r('C01-ref-queue-empty-by-len', 'C01', E + 'post_tx_queue.py',
+      "            if not queue:\n                return res\n",
+      "            if len(queue) == 0:\n                return res\n"),
+    r('C09-ref-queue-positive-form', 'C09', E + 'post_tx_queue.py',
+      "            if not queue:\n                return res\n\n"
+      "            auth_ctx = context.ctx() if context.has_ctx() else None\n",
+      "            if not queue:\n                return res\n\n"
+      "            auth_ctx = None\n\n            if context.has_ctx():\n"
+      "                auth_ctx = context.ctx()\n"),
     r('C04-ref-join-compare-mirrored', 'C04', W + 'direct_workflow.py',
       "            if runnings_tuple[0] >= spec_cardinality:",
       "            if spec_cardinality <= runnings_tuple[0]:"),
